@@ -29,6 +29,9 @@ Proved, for all values in range / all lists:
        arrays of the format document's encoded_values, any nesting) the extended loader ends in the
        declared state and reports the declared static values and init values; the decoder is C04's
        (`encoded_value_decoder_is_C04`), the base view is the base loader's (`extended_refines_base`);
+       `parse_encode_annotations`: the same files may carry annotation_item / annotation_set_item /
+       annotation_set_ref_list / annotations_directory_item sections; every class reports the directory
+       at its annotations_off and `get_annotations()` = the types of its class annotation set;
        writer `parse_build_static_values`; non-vacuity Proof/DexXExample.lean.
   write `build_encodes`, `parse_build`: a layout-parametric writer whose output `Encodes` the tables for
        every `Consistent` layout, hence parse ∘ write = declared content; witnessed by the same
@@ -319,8 +322,8 @@ theorem tables_rows (T : Tables) (L : Layout) :
 `parseDexX` (Model/DexFileX.lean) is the loader with the item parsers of ENCODED_ARRAY_ITEM, the
 annotation item types and the whole of ClassDefItem.reload (annotations directory lookup, static
 values lookup, ClassDataItem.set_static_fields).  Vocabulary: Proof/DexXTables.lean (`TablesX`,
-`EncodesX`, `WFX`, `tablesCMX`, `declaredX`); in this step the layout has no annotation sections
-(`NoAnn`) and the class defs no annotations directory. -/
+`EncodesX`, `WFX`, `tablesCMX`, `declaredX`): the base tables plus the sections encoded_array_item,
+annotation_item, annotation_set_item, annotation_set_ref_list, annotations_directory_item. -/
 
 /-- the extended loader refines the base loader: when it succeeds, `parseDex` succeeds with the base
     part of its view (so every theorem above about `parseDex` speaks about the same classes) -/
@@ -355,15 +358,47 @@ theorem parse_encode_static_values (file : Bytes) (L : Layout) (TX : TablesX) (h
     (henc : EncodesX file L TX) : parseDexX file = .ok (declaredX TX L) :=
   parseDexX_declared henc hwf
 
-/-- the layout-parametric writer with the encoded_array_item section: its output encodes the tables -/
+/-- The file-level statement with annotations, spelled out per class: on every file that encodes
+    well-formed extended tables (now also annotation_item, annotation_set_item,
+    annotation_set_ref_list and annotations_directory_item sections, in any layout), the extended
+    loader reports for every class def exactly the directory stored at its annotations_off (None for 0
+    or when no directory starts there — the offsets inside a directory are only stored, never
+    dereferenced at load time) and `get_annotations()` = the type descriptors of the annotation items
+    its class annotation set lists, in that order. -/
+theorem parse_encode_annotations (file : Bytes) (L : Layout) (TX : TablesX) (hwf : WFX TX L)
+    (henc : EncodesX file L TX) :
+    ∃ v, parseDexX file = .ok v ∧
+      v.classes.map (·.annDir) = TX.base.classDefs.map (fun c => annDirAt TX L c.annOff) ∧
+      v.classes.map (·.annotations) = TX.base.classDefs.map (annotationsAt TX L) :=
+  ⟨_, parseDexX_declared henc hwf, by simp [declaredX, classVX, List.map_map, Function.comp_def],
+    by simp [declaredX, classVX, List.map_map, Function.comp_def]⟩
+
+/-- an annotation_item of the format document (visibility byte, then an encoded_annotation: uleb128
+    type_idx and size of any valid encoding, elements with values nested to any depth) is decoded to
+    what it denotes, consuming exactly its bytes -/
+theorem annotation_item_roundtrip (P : Spec.EncodedValue.Pools) (ab : Bytes) (vis t : Nat)
+    (elems : List (Nat × Spec.EncodedValue.SValue)) (rest : Bytes) (h : DexX.EncAnnItem ab vis t elems) :
+    decAnnItemX (DexX.okLook (EncodedValue.toCM P)) (ab ++ rest) =
+      .ok (⟨vis, t, elems.map (fun e => (e.1, EncodedValue.embed P e.2))⟩, ab.length) :=
+  DexX.decAnnItemX_enc P ab vis t elems rest h
+
+/-- the offset records (annotation_set_item / annotation_set_ref_list, annotations_directory_item)
+    are read back as stored -/
+theorem annotation_records_roundtrip (l : List Nat) (d : AnnDir) (rest : Bytes) (hl : OffListOk l) (hd : AnnDirOk d) :
+    decOffList (DexX.encOffList l ++ rest) = some (l, rest) ∧ decAnnDir (DexX.encAnnDir d ++ rest) = some (d, rest) :=
+  ⟨decOffList_enc l rest hl, decAnnDir_enc d rest hd⟩
+
+/-- the layout-parametric writer with the five sections of the extension: its output encodes the tables -/
 theorem build_encodes_static_values (TX : TablesX) (L : Layout) (size : Nat) (hc : ConsistentX TX L size)
-    (hi : ItemsOk TX.base) (ha : ∀ p ∈ TX.encArrays, DexX.EncArray p.2 p.1) :
-    EncodesX (buildX TX L size) L TX := encodesX_buildX hc hi ha
+    (hi : ItemsOk TX.base) (ha : ∀ p ∈ TX.encArrays, DexX.EncArray p.2 p.1)
+    (hb : ∀ p ∈ TX.annItems, DexX.EncAnnItem p.2 p.1.visibility p.1.typeIdx p.1.elems) :
+    EncodesX (buildX TX L size) L TX := encodesX_buildX hc ⟨hi, ha, hb⟩
 
 /-- parse ∘ write = declared content, extended -/
 theorem parse_build_static_values (TX : TablesX) (L : Layout) (size : Nat) (hwf : WFX TX L)
-    (hc : ConsistentX TX L size) (hi : ItemsOk TX.base) (ha : ∀ p ∈ TX.encArrays, DexX.EncArray p.2 p.1) :
-    parseDexX (buildX TX L size) = .ok (declaredX TX L) := parseDexX_buildX hwf hc hi ha
+    (hc : ConsistentX TX L size) (hi : ItemsOk TX.base) (ha : ∀ p ∈ TX.encArrays, DexX.EncArray p.2 p.1)
+    (hb : ∀ p ∈ TX.annItems, DexX.EncAnnItem p.2 p.1.visibility p.1.typeIdx p.1.elems) :
+    parseDexX (buildX TX L size) = .ok (declaredX TX L) := parseDexX_buildX hwf hc ⟨hi, ha, hb⟩
 
 /-- what the declared init values are in the ordinary case (the class data item of the class is
     written by exactly one set_static_fields call — class data items are not shared — with no more
@@ -556,16 +591,20 @@ example : (allMethods (declared Example.T Example.L)).map (fun m => [m.name, m.d
     [[ascii "<init>", ascii "()V", [112, 16, 3, 0, 0, 0, 14, 0]], [ascii "f", ascii "(I J)I", [18, 16, 15, 0, 13, 1, 18, 32, 15, 0, 18, 48, 15, 0]],
      [ascii "run", ascii "()V", [14, 0]]] := by decide +kernel
 
-/-- … static values: a file written by `buildX` (class `LA;`, static fields `x : I` and `I : LA;`, static
-    values [int 7, string "x"]) satisfies every hypothesis of `parse_build_static_values`, and declares
-    the init values 7 and "x" -/
+/-- … static values and annotations: a file written by `buildX` (class `LA;`, static fields `x : I` and
+    `I : LA;`, static values [int 7, string "x"], class annotation `@LA;(x = 5)` reached through an
+    annotations directory and a class annotation set) satisfies every hypothesis of
+    `parse_build_static_values`, and declares the init values 7 and "x", the directory and the annotation -/
 example : WFX ExampleX.TX ExampleX.L ∧ ConsistentX ExampleX.TX ExampleX.L ExampleX.size ∧ ItemsOk ExampleX.TX.base ∧
-    ∀ p ∈ ExampleX.TX.encArrays, DexX.EncArray p.2 p.1 :=
-  ⟨ExampleX.wf, ExampleX.consistent, ExampleX.itemsOk, ExampleX.arraysOk⟩
+    (∀ p ∈ ExampleX.TX.encArrays, DexX.EncArray p.2 p.1) ∧
+    (∀ p ∈ ExampleX.TX.annItems, DexX.EncAnnItem p.2 p.1.visibility p.1.typeIdx p.1.elems) :=
+  ⟨ExampleX.wf, ExampleX.consistent, ExampleX.itemsOk, ExampleX.arraysOk, ExampleX.annItemsOk⟩
 example : parseDexX (buildX ExampleX.TX ExampleX.L ExampleX.size) = .ok (declaredX ExampleX.TX ExampleX.L) :=
-  parse_build_static_values _ _ _ ExampleX.wf ExampleX.consistent ExampleX.itemsOk ExampleX.arraysOk
+  parse_build_static_values _ _ _ ExampleX.wf ExampleX.consistent ExampleX.itemsOk ExampleX.arraysOk ExampleX.annItemsOk
 example : (declaredX ExampleX.TX ExampleX.L).classes.map (fun c => c.inits.map (·.bind ExampleX.valInt)) = [[some 7, none]] ∧
-    (declaredX ExampleX.TX ExampleX.L).classes.map (fun c => c.inits.map (·.bind ExampleX.valRef)) = [[none, some ["x"]]] := by
+    (declaredX ExampleX.TX ExampleX.L).classes.map (fun c => c.inits.map (·.bind ExampleX.valRef)) = [[none, some ["x"]]] ∧
+    (declaredX ExampleX.TX ExampleX.L).classes.map (·.annDir) = [some ⟨0x84, [], [], []⟩] ∧
+    (declaredX ExampleX.TX ExampleX.L).classes.map (·.annotations) = [[ascii "LA;"]] := by
   decide +kernel
 
 end AgVerif.C05
